@@ -736,8 +736,110 @@ def check_blocks_case(case, tol=1e-7):
     return fails
 
 
+# ---------------------------------------------------------------------------
+# modes that occur only in the perturbation (no term in H_0)
+
+
+def gen_zerofreq_case(rng, variant=None):
+    """H_0 = w N_x only; a second mode y has NO term in H_0 and occurs in H_1 = c1 (x† y + y† x) + c2 N_x N_y (+ c3 N_x):
+    every term changes n_x and n_y oppositely, so the levels coupled by the perturbation are never degenerate.
+    variant: "bb" (two bosons), "fb" (x fermion, y boson), "bf" (x boson, y fermion)"""
+    variant = variant or rng.choice(["bb", "bb", "fb", "bf"])
+
+    def r(lo=1):
+        return [rng.choice([v for v in range(-3, 4) if abs(v) >= lo]), rng.randint(1, 4)]
+    return dict(kind="zerofreq", variant=variant, w=rng.choice([[1, 1], [17, 7], [3, 2]]), c=[r(), r(0), r(0)], K=6, N=2)
+
+
+def check_zerofreq_case(case, tol=1e-7):
+    from pymablock import block_diagonalize
+    from pymablock.series import zero, one
+    v = case["variant"]
+    if v == "bb":
+        sp = Space(2, 0, case["K"])
+        x, y = sp.bos
+        xi = 0
+    elif v == "fb":
+        sp = Space(1, 1, case["K"])
+        x, y = sp.fer[0], sp.bos[0]
+        xi = 1
+    else:
+        sp = Space(1, 1, case["K"])
+        x, y = sp.bos[0], sp.fer[0]
+        xi = 0
+    w = R(*case["w"])
+    c1, c2, c3 = (R(*c) for c in case["c"])
+    H0 = w * Dagger(x) * x
+    H1 = c1 * (Dagger(x) * y + Dagger(y) * x) + c2 * Dagger(x) * x * Dagger(y) * y + c3 * Dagger(x) * x
+    g = sympy.Symbol("g", real=True)
+    N, dim = case["N"], sp.dim
+    fails = []
+    with warnings.catch_warnings():
+        warnings.simplefilter("ignore")
+        try:
+            Ht, U, Ud = block_diagonalize(H0 + g * H1, symbols=[g])
+            ops = {}
+            for name, S in (("H_tilde", Ht), ("U", U), ("U†", Ud)):
+                for k in range(N + 1):
+                    val = S[0, 0, k]
+                    if val is zero:
+                        ops[name, k] = np.zeros((dim, dim), dtype=complex)
+                    elif val is one:
+                        ops[name, k] = np.eye(dim, dtype=complex)
+                    else:
+                        val = sympy.sympify(val)
+                        if isinstance(val, sympy.MatrixBase):
+                            val = val[0, 0]
+                        ops[name, k] = sp.tomat(val.subs(g, 1))
+            # reference: the degenerate Fock states (same occupation of x) form one block each
+            labels = [st[xi] for st in sp.states]
+            blocks = sorted(set(labels))
+            idx = [[k for k, l in enumerate(labels) if l == b] for b in blocks]
+            M0, M1 = sp.tomat(H0).real, sp.tomat(H1).real
+            Htm, Um, Udm = block_diagonalize([np.diag(np.diag(M0)), M1], subspace_indices=[blocks.index(l) for l in labels])
+
+            def assemble(S, k):
+                full = np.zeros((dim, dim), dtype=complex)
+                for bi in range(len(blocks)):
+                    for bj in range(len(blocks)):
+                        val = S[bi, bj, k]
+                        if val is zero:
+                            continue
+                        full[np.ix_(idx[bi], idx[bj])] = np.eye(len(idx[bi])) if val is one else np.asarray(val.toarray() if hasattr(val, "toarray") else val)
+                return full
+            ref = {(nm, k): assemble(S, k) for nm, S in (("H_tilde", Htm), ("U", Um), ("U†", Udm)) for k in range(N + 1)}
+        except Exception as e:
+            return [dict(what="block_diagonalize with a mode that occurs only in the perturbation (%s) raised %s: %s" % (v, type(e).__name__, str(e)[:200]), input=case)]
+        for k in range(N + 1):
+            inner = sp.interior(k + 1)
+            if not inner:
+                continue
+            sel = np.ix_(inner, inner)
+            for nm in ("H_tilde", "U", "U†"):
+                d = np.abs(ops[nm, k][sel] - ref[nm, k][sel]).max()
+                if not np.isfinite(d) or d > tol * max(1.0, np.abs(ref[nm, k]).max()):
+                    fails.append(dict(what="mode without H_0 term (%s): %s at order %d differs from the block-wise truncated-matrix result on interior Fock states by %.3g" % (v, nm, k, d), input=case))
+        Hm = {0: sp.tomat(H0), 1: sp.tomat(H1)}
+        for n in range(N + 1):
+            inner = sp.interior(n + 1)
+            if not inner:
+                continue
+            sel = np.ix_(inner, inner)
+            uu = sum(ops["U†", p] @ ops["U", n - p] for p in range(n + 1))
+            tgt = np.eye(dim) if n == 0 else np.zeros((dim, dim))
+            if np.abs((uu - tgt)[sel]).max() > tol:
+                fails.append(dict(what="mode without H_0 term (%s): U†U != 1 at order %d on interior Fock states" % (v, n), input=case))
+            tot = sum(ops["U†", p] @ Hm[q] @ ops["U", n - p - q] for p in range(n + 1) for q in range(min(1, n - p) + 1))
+            d = np.abs((tot - ops["H_tilde", n])[sel]).max()
+            if d > tol * max(1.0, np.abs(tot).max()):
+                fails.append(dict(what="mode without H_0 term (%s): U†HU != H_tilde at order %d on interior Fock states (%.3g)" % (v, n, d), input=case))
+    return fails
+
+
 def _dispatch(case):
     k = case.get("kind")
+    if k == "zerofreq":
+        return check_zerofreq_case(case)
     return check_mask_case(case) if k == "mask" else check_blocks_case(case) if k == "blocks" else check_matrix_case(case) if k == "matrix" else check_case(case)
 
 
@@ -760,6 +862,10 @@ def oracle_fock(ctx, ncases=None, N=None):
         c["N"] = N or ctx.n(2, 3)
         cases.append(c)
     cases.append(gen_blocks_case(random.Random(7), sub=[0, 1, 2]))  # corpus: three 1x1 blocks (all pairs use the in-block entry [0,0])
+    # corpus (fix 82feb7f): w a†a + g (a†b + b†a): b occurs only in the perturbation; H_tilde_2 = g^2 (N_a - N_b) / w
+    cases.append(dict(kind="zerofreq", variant="bb", w=[3, 2], c=[[1, 1], [0, 1], [0, 1]], K=6, N=3))
+    for i in range(ctx.n(2, 30)):
+        cases.append(gen_zerofreq_case(ctx.rng))
     for i in range(ctx.n(3, 45)):  # matrix-valued Hamiltonians with several blocks / fully_diagonalize lists
         cases.append(gen_blocks_case(ctx.rng))
     for i in range(ctx.n(4, 60)):  # operator-valued elimination masks (fully_diagonalize = sympy Matrix / dict / Expr)
